@@ -5,7 +5,7 @@
 (* parametric family of wide Maps; the expected results of a fixed set of  *)
 (* paths and keys come from the same operators (MxjPath).                  *)
 (***************************************************************************)
-EXTENDS MxjPath, Json
+EXTENDS MxjMutate, Json
 CONSTANTS Widths, DoEmit
 VARIABLE m
 SV(i) == VS("v" \o ToString(i))
@@ -37,6 +37,12 @@ EmitVfp == DoEmit => PrintT(ToJson([f |-> "vfp", m |-> m, cs |-> SetToSeq({Case(
 \* C09 on lists longer than 256 members: every leaf path (a[N] / a.N notation) and its value; the harness resolves each path again
 LCase(na, dot) == [na |-> na, dot |-> dot, ak |-> <<>>, r |-> LeafSeq(m, na, dot, {}, "#text")]
 EmitLeaf == DoEmit => PrintT(ToJson([f |-> "leaf", m |-> m, cs |-> SetToSeq({LCase(na, dot) : na \in BOOLEAN, dot \in BOOLEAN})]))
+\* C12 on wide lists: a projection that carries more values than the initial result capacity
+NMPairs == {<<[old |-> <<PK("a", -1)>>, new |-> <<"p">>]>>, <<[old |-> <<PK("a", -1), PK("b", -1)>>, new |-> <<"p", "q">>]>>,
+            <<[old |-> <<PK("*", -1)>>, new |-> <<"r">>], [old |-> <<PK("a", 33)>>, new |-> <<"s">>]>>}
+NMStr(pr) == PathStr(pr.old) \o ":" \o DotJoin(pr.new)
+EmitNewMap == DoEmit => PrintT(ToJson([f |-> "newmap", m |-> m,
+                 cs |-> SetToSeq({[pairs |-> [i \in 1..Len(ps) |-> NMStr(ps[i])], ov |-> "0", r |-> NewMapOp(m, ps)] : ps \in NMPairs})]))
 EmitVfk == DoEmit => PrintT(ToJson([f |-> "vfk", m |-> m,
               ks |-> SetToSeq({KCase(key, cs) : key \in {"a", "b", "c", "*", "k1"}, cs \in CondSets}),
               pf |-> <<>>, vp |-> <<>>]))
